@@ -22,8 +22,6 @@ pub mod stubs;
 pub mod c12;
 #[path = "../../kani/src/c13.rs"]
 pub mod c13;
-#[path = "../../kani/src/c11.rs"]
-pub mod c11;
 #[path = "../../kani/src/c10.rs"]
 pub mod c10;
 
@@ -31,7 +29,6 @@ fn kani_bodies() -> Vec<(&'static str, fn())> {
   let mut v: Vec<(&'static str, fn())> = Vec::new();
   v.extend_from_slice(c12::BODIES);
   v.extend_from_slice(c13::BODIES);
-  v.extend_from_slice(c11::BODIES);
   v.extend_from_slice(c10::BODIES);
   v
 }
@@ -78,6 +75,7 @@ fn main() {
     "statuslist_set" | "statuslist_get" | "statuslist_set_get" => statuslist::run(scenario, &cex),
     "statuslist_oneway" => statuslist::oneway(&cex),
     "jws_binding" => jws::binding(&cex),
+    "jws_policy" => jws::policy(&cex),
     "state_metadata" => iota::state_metadata(&cex),
     "did_syntax" => did::syntax(&cex),
     "credential_validation" => cred::credential_validation(&cex),
